@@ -1228,6 +1228,99 @@ func (it *Interp) setupIntrinsics() {
 	}
 	T["(*strings.Builder).Grow"] = func(it *Interp, fn *ssa.Function, a []Value) Value { return nil }
 
+	// bytes.Buffer: append-only model over its buf/off fields (Write*, Bytes, Len, Read, Reset)
+	bbBuf := func(p Value) Ptr { return p.(Ptr).child(PathElem{I: 0}) }
+	bbOff := func(p Value) Ptr { return p.(Ptr).child(PathElem{I: 1}) }
+	bbAppend := func(it *Interp, p Value, vals []Value) {
+		bp := bbBuf(p)
+		it.store(bp, it.appendValues(it.load(bp).(SliceV), types.Typ[types.Byte], vals))
+	}
+	T["(*bytes.Buffer).Write"] = func(it *Interp, fn *ssa.Function, a []Value) Value {
+		bs := a[1].(SliceV)
+		vals := make([]Value, bs.Len)
+		for i := range vals {
+			vals[i] = it.sliceGet(bs, i)
+		}
+		bbAppend(it, a[0], vals)
+		return Tuple{it.mkInt(bs.Len), Iface{}}
+	}
+	T["(*bytes.Buffer).WriteByte"] = func(it *Interp, fn *ssa.Function, a []Value) Value {
+		bbAppend(it, a[0], []Value{a[1]})
+		return Iface{}
+	}
+	T["(*bytes.Buffer).WriteString"] = func(it *Interp, fn *ssa.Function, a []Value) Value {
+		bs := it.stringToBytes(a[1], byteSlice).(SliceV)
+		vals := make([]Value, bs.Len)
+		for i := range vals {
+			vals[i] = it.sliceGet(bs, i)
+		}
+		bbAppend(it, a[0], vals)
+		return Tuple{it.mkInt(bs.Len), Iface{}}
+	}
+	T["(*bytes.Buffer).Bytes"] = func(it *Interp, fn *ssa.Function, a []Value) Value {
+		b := it.load(bbBuf(a[0])).(SliceV)
+		off := cint(it, it.load(bbOff(a[0])))
+		if b.Nil {
+			return b
+		}
+		return SliceV{Arr: b.Arr, Off: b.Off + off, Len: b.Len - off, Cap: b.Cap - off}
+	}
+	T["(*bytes.Buffer).Len"] = func(it *Interp, fn *ssa.Function, a []Value) Value {
+		b := it.load(bbBuf(a[0])).(SliceV)
+		return it.mkInt(b.Len - cint(it, it.load(bbOff(a[0]))))
+	}
+	T["(*bytes.Buffer).String"] = func(it *Interp, fn *ssa.Function, a []Value) Value {
+		b := it.load(bbBuf(a[0])).(SliceV)
+		off := cint(it, it.load(bbOff(a[0])))
+		if b.Nil {
+			return ""
+		}
+		return it.bytesToString(SliceV{Arr: b.Arr, Off: b.Off + off, Len: b.Len - off, Cap: b.Cap - off}, byteSlice)
+	}
+	T["(*bytes.Buffer).Reset"] = func(it *Interp, fn *ssa.Function, a []Value) Value {
+		it.store(bbBuf(a[0]), SliceV{Nil: true})
+		it.store(bbOff(a[0]), it.mkInt(0))
+		return nil
+	}
+	T["(*bytes.Buffer).Read"] = func(it *Interp, fn *ssa.Function, a []Value) Value {
+		b := it.load(bbBuf(a[0])).(SliceV)
+		off := cint(it, it.load(bbOff(a[0])))
+		p := a[1].(SliceV)
+		avail := b.Len - off
+		if avail <= 0 {
+			if p.Len == 0 {
+				return Tuple{it.mkInt(0), Iface{}}
+			}
+			eof := it.load(Ptr{Obj: it.global(it.prog.ImportedPackage("io").Var("EOF"))})
+			return Tuple{it.mkInt(0), eof}
+		}
+		n := min(avail, p.Len)
+		for i := 0; i < n; i++ {
+			it.store(it.sliceElemPtr(p, i), it.sliceGet(b, off+i))
+		}
+		it.store(bbOff(a[0]), it.mkInt(off+n))
+		return Tuple{it.mkInt(n), Iface{}}
+	}
+	// encoding/json.Marshal: reflection is outside the encoder. The harness-visible contract used here: some
+	// byte string of symbolic content whose length is a symbolic choice in [0, Bound("JSONLEN")].
+	T["encoding/json.Marshal"] = func(it *Interp, fn *ssa.Function, a []Value) Value {
+		mx, ok := it.cfg.Bounds["JSONLEN"]
+		if !ok {
+			it.outside("encoding/json.Marshal (reflection) - no JSONLEN bound declared by the harness")
+		}
+		n := it.choose(mx + 1)
+		it.jsonSeq++
+		name := fmt.Sprintf("$json%d", it.jsonSeq)
+		it.fixed[name+".len"] = it.mkInt(n)
+		sl := it.makeSlice(types.Typ[types.Byte], n, n)
+		for i := 0; i < n; i++ {
+			v := it.newInput(fmt.Sprintf("%s[%d]", name, i), it.intSort(8), "byte")
+			it.extendModel(v, it.byteTerm(0))
+			setChild(sl.Arr.Obj.V, i, v)
+		}
+		return Tuple{sl, Iface{}}
+	}
+
 	// compress/gzip: identity pass-through (DEFLATE/CRC are outside the encoder; the claims are about the
 	// layout inside the stream). NewReader returns a *gzip.Reader whose Read forwards to the wrapped reader.
 	T["compress/gzip.NewReader"] = func(it *Interp, fn *ssa.Function, a []Value) Value {
